@@ -309,6 +309,8 @@ def run(chk):
     run_X4(chk)
     run_X5(chk)
 
+    from . import e10
+    e10.run_U(chk, ("yastn.krylov", "yastn.tensor._krylov"), floor1=5, floor2=1)
 
 MUTANTS = [
     ("Arnoldi: ket/bra swapped", "yastn/tensor/_krylov.py", "                H[(i, j)] = V[i].vdot(w)", "                H[(i, j)] = w.vdot(V[i])", "X1"),
